@@ -8,14 +8,20 @@ B  implementation (harness c05: open / tarls / pptar / ntf) vs Model/Containers.
 C  implementation vs the FORMAT (python side, no model): for a well-formed stored form of `plain`
    filesz() = len(plain), blocks = slices of plain, mtime() = the header time (0: the file's own),
    every regular member of a tar is listed once and read as its bytes; stdout of the s4 binary equals
-   the plain run.  Known-finding classes are the predicates at the end of this file.
+   the plain run.  Known-finding classes: tar_duplicate_member_path, tar_member_mtime_out_of_range.
+   Multi-member gzip and multi-stream xz are outside the property's quantifier: exercised by B only.
 """
 import bz2, io, json, lzma, os, struct, tarfile, zlib
 from concurrent.futures import ThreadPoolExecutor
 import vlib
 from vlib import CACHE
 
+import sys
+sys.path.insert(0, os.path.join(vlib.ROOT, "corpus", "C05"))
+from gen_witnesses import octal, tar_header, tar_raw, base256      # the same bytes as the corpus witnesses
+
 M32 = 0xFFFFFFFF
+CHRONO_MAX_SECS = 8210266876799          # DateTime<Utc>::MAX_UTC: +262142-12-31T23:59:59
 FS_MT = (1600000000, 123456789)          # mtime given to every generated container file
 FTA = {"plain": 0, "bz2": 1, "gz": 2, "lz4": 3, "tar": 4, "xz": 5}
 
@@ -30,6 +36,21 @@ def hexlist(h):
 
 def hb(b):
     return hexlist(hx(b))
+
+
+def hbr(b):
+    """run-length form [(hex chunk, repeat)] for Corr/C05c.hexcatr: runs of >= 256 equal bytes are folded"""
+    import re
+    out, pos = [], 0
+    for m in re.finditer(rb"(.)\1{255,}", b, flags=re.S):
+        if m.start() > pos:
+            h = hx(b[pos:m.start()])
+            out += ['("%s", 1%%N)' % h[i:i + 4096] for i in range(0, len(h), 4096)]
+        out.append('("%s", %d%%N)' % (hx(m.group(1)), m.end() - m.start()))
+        pos = m.end()
+    h = hx(b[pos:])
+    out += ['("%s", 1%%N)' % h[i:i + 4096] for i in range(0, len(h), 4096)]
+    return "[" + "; ".join(out) + "]"
 
 
 def put(path, blob):
@@ -56,40 +77,6 @@ def gz_build(plain, text=False, hcrc=False, extra=None, name=None, comment=None,
     co = zlib.compressobj(level, zlib.DEFLATED, -15)
     body = co.compress(plain) + co.flush()
     return hdr + body + struct.pack("<II", zlib.crc32(plain) & M32, (len(plain) if isize is None else isize) & M32)
-
-
-def octal(v, w):
-    return ("%0*o" % (w - 1, v)).encode() + b"\0"
-
-
-def tar_header(name, size=0, typ=b"0", mtime=0, link=b"", prefix=b"", mode=0o644, magic=b"ustar\x0000", size_field=None, mtime_field=None):
-    h = bytearray(512)
-    h[0:len(name)] = name[:100]
-    h[100:108] = octal(mode, 8)
-    h[108:116] = octal(0, 8)
-    h[116:124] = octal(0, 8)
-    h[124:136] = size_field if size_field is not None else octal(size, 12)
-    h[136:148] = mtime_field if mtime_field is not None else octal(mtime, 12)
-    h[148:156] = b" " * 8
-    h[156:157] = typ
-    h[157:157 + len(link)] = link[:100]
-    h[257:265] = magic
-    h[345:345 + len(prefix)] = prefix[:155]
-    ck = sum(h)
-    h[148:156] = ("%06o" % ck).encode() + b"\0 "
-    return bytes(h)
-
-
-def tar_raw(entries):
-    """entries: [(header bytes, data bytes)] -> archive"""
-    out = bytearray()
-    for h, d in entries:
-        out += h + d + bytes((-len(d)) % 512)
-    return bytes(out) + bytes(1024)
-
-
-def base256(v, w=12):
-    return bytes([0x80]) + v.to_bytes(w - 1, "big")
 
 
 # ------------------------------------------------------------------------------ harness output
@@ -159,25 +146,18 @@ def coq_items(items):
 
 
 # ------------------------------------------------------------------------------ known-finding classes
-def gzip_multi_member(case):
-    return case.get("family") == "gz" and case.get("members", 1) > 1
-
-
-def xz_multi_stream(case):
-    return case.get("family") == "xz" and (case.get("streams", 1) > 1 or case.get("padding", 0) > 0)
-
-
 def tar_duplicate_member_path(case):
-    return case.get("family") == "tar" and case.get("duplicate_path", False)
+    """a regular tar member whose path already occurred earlier in the same archive"""
+    return case.get("family") == "tar" and bool(case.get("duplicate_path"))
 
 
-def tar_mtime_beyond_i64(case):
-    return case.get("family") == "tar" and case.get("mtime", 0) > 0x7FFFFFFFFFFFFFFF
+def tar_member_mtime_out_of_range(case):
+    """a tar member whose header mtime (base-256 field) is beyond what chrono's DateTime<Utc> holds"""
+    return case.get("family") == "tar" and case.get("mtime", 0) > CHRONO_MAX_SECS
 
 
 def classes_of(case):
-    return [n for n, f in (("gzip_multi_member", gzip_multi_member), ("xz_multi_stream", xz_multi_stream),
-                           ("tar_duplicate_member_path", tar_duplicate_member_path), ("tar_mtime_beyond_i64", tar_mtime_beyond_i64)) if f(case)]
+    return [n for n, f in (("tar_duplicate_member_path", tar_duplicate_member_path), ("tar_member_mtime_out_of_range", tar_member_mtime_out_of_range)) if f(case)]
 
 
 # ------------------------------------------------------------------------------ generators
@@ -233,7 +213,7 @@ def gz_cases(ctx, scratch, quick):
                                             comment=None if comment is None else len(comment), n=n), mtime=mt)
     # fields at flate2's limit and one over (B only above the limit: RFC-valid, refused by flate2)
     p = payload(rng, 130)
-    add(gz_build(p, name=b"n" * 65535, comment=b"c" * 65535, extra=rnd_bytes(rng, 65535), hcrc=True, mtime=7), 64, p, True, dict(limit="at"), mtime=7)
+    add(gz_build(p, name=b"n" * 65535, comment=b"\xfe" * 65535, extra=b"\xff" * 65535, hcrc=True, mtime=7, level=0), 64, p, True, dict(limit="at"), mtime=7)
     add(gz_build(p, name=b"n" * 65536, mtime=7), 64, p, False, dict(limit="name+1"))
     add(gz_build(p, comment=b"c" * 65536, hcrc=True, mtime=7), 64, p, False, dict(limit="comment+1"))
     # headers flate2 refuses: new() still succeeds
@@ -253,11 +233,11 @@ def gz_cases(ctx, scratch, quick):
         add(bytes([0x1F, 0x8B, 8, 0, 1, 0, 0, 0, 0, 3] + [0] * 8)[:nbytes], 64, b"", False, dict(bad="tiny", size=nbytes))
     # trailing garbage after the member (B only): the size is whatever the last 8 bytes say
     add(gz_build(p, mtime=3) + b"\0\0\0", 64, p, False, dict(bad="trailing"))
-    # multi-member (C: gzip -d gives the concatenation; known finding)
+    # multi-member: OUTSIDE the property's quantifier (single-stream files); B only, ties gz_multi_member_*
     for sizes in ([200, 70], [70, 200], [64, 64, 64], [100, 0], [0, 100]):
         parts = [payload(rng, s) for s in sizes]
         blob = b"".join(gz_build(q, mtime=11 + j, name=b"m%d" % j if j % 2 else None) for j, q in enumerate(parts))
-        add(blob, 64, parts[0], True, dict(multi=sizes), members=len(parts), all_plain=b"".join(parts), mtime=11)
+        add(blob, 64, parts[0], False, dict(multi=sizes), members=len(parts))
     # ISIZE needs all four bytes: sizes over 2^16 and 2^24 (highly compressible; blocks not read)
     for n in ([65536 + 5, 2 ** 24 + 3] if quick else [65536 + 5, 2 ** 24 + 3, 3 * 2 ** 24 + 0x010203]):
         big = bytes(n)
@@ -267,7 +247,7 @@ def gz_cases(ctx, scratch, quick):
 
 def gz_coq(c, o):
     big = len(c["plain"]) > 100000
-    return "(%d%%N, %s, %s, %s, %s)" % (c["bs"], hb(c["blob"]), "[]" if big else hb(c["plain"]), nl(c.get("sched", [3, 1, 2056, 5])), coq_obs(o))
+    return "(%d%%N, %s, %s, %s, %s)" % (c["bs"], hbr(c["blob"]), "[]" if big else hb(c["plain"]), nl(c.get("sched", [3, 1, 2056, 5])), coq_obs(o))
 
 
 def pre_cases(ctx, scratch, quick):
@@ -323,8 +303,9 @@ def xz_cases(ctx, scratch, quick):
     a, b = payload(rng, 150), payload(rng, 90)
     # integrity check SHA-256: a valid .xz that lzma-rs 0.3.0 cannot read (B only; see level note)
     add(lzma.compress(a, format=lzma.FORMAT_XZ, check=lzma.CHECK_SHA256), 64, a, 1, False, dict(check="sha256"))
-    add(lzma.compress(a) + lzma.compress(b), 64, a, 1, True, dict(streams=2), streams=2, all_plain=a + b)
-    add(lzma.compress(a) + bytes(4), 64, a, 1, True, dict(padding=4), padding=4, all_plain=a)
+    # multi-stream / stream padding: outside the quantifier; B only (lzma-rs refuses, new fails)
+    add(lzma.compress(a) + lzma.compress(b), 64, a, 1, False, dict(streams=2), streams=2)
+    add(lzma.compress(a) + bytes(4), 64, a, 1, False, dict(padding=4), padding=4)
     good = lzma.compress(a)
     for cut in (0, 5, 6, 7, 8, 11, 12, 13):
         add(good[:cut], 64, b"", 1, False, dict(cut=cut))
@@ -393,11 +374,14 @@ def tar_archives(ctx, scratch, quick):
     ents = [(tar_header(b"old.log", len(d1), typ=b"\0", mtime=100), d1),
             (tar_header(b"v7.log", len(d2), typ=b"0", mtime=200, magic=bytes(8)), d2),
             (tar_header(b"sp.log", len(d3), mtime=300, size_field=b"%10o \0" % len(d3), mtime_field=(b" %o " % 300).ljust(12, b"\0")), d3),
-            (tar_header(b"hi\xff.log", len(d3), mtime=8 ** 11 - 1), d3)]
+            (tar_header(b"hi\xff.log", len(d3), mtime=8 ** 11 - 1), d3),
+            # names that are suffixes / prefixes of one another (addressing is by EQUAL path)
+            (tar_header(b"dir/app.log", len(d1), mtime=401), d1), (tar_header(b"app.log", len(d2), mtime=402), d2), (tar_header(b"app.log.1", len(d3), mtime=403), d3)]
     blob = tar_raw(ents)
     out.append(dict(path=put(os.path.join(scratch, "t%02d_hand.tar" % k), blob), blob=blob, ustar_plain=True, meta=dict(format="hand", kinds="old v7 spaces hi-byte"),
                     members=[dict(path=b"old.log", data=d1, mtime=100), dict(path=b"v7.log", data=d2, mtime=200), dict(path=b"sp.log", data=d3, mtime=300),
-                             dict(path="hi�.log".encode(), data=d3, mtime=8 ** 11 - 1)]))
+                             dict(path="hi�.log".encode(), data=d3, mtime=8 ** 11 - 1),
+                             dict(path=b"dir/app.log", data=d1, mtime=401), dict(path=b"app.log", data=d2, mtime=402), dict(path=b"app.log.1", data=d3, mtime=403)]))
     k += 1
     blob = tar_raw([(tar_header(b"x.log", len(d1), mtime=100), d1), (tar_header(b"y.log", len(d3), mtime=5), d3), (tar_header(b"x.log", len(d2), mtime=200), d2)])
     out.append(dict(path=put(os.path.join(scratch, "t%02d_dup.tar" % k), blob), blob=blob, ustar_plain=True, meta=dict(format="hand", kinds="duplicate path"),
@@ -419,23 +403,39 @@ def tar_archives(ctx, scratch, quick):
 
 
 # ------------------------------------------------------------------------------ the run
-def coq_run(ctx, name, fn, typ, texts):
-    """texts: list of Coq case terms; returns {case index: [codes]} or None when coqc failed"""
-    if not texts:
-        return {}
+def coq_batch(ctx, groups):
+    """groups: [(name, Coq function, Coq case type, [case terms])]; ONE round of coqc shards holding a slice
+    of every group.  Returns {name: {case index: [codes]}} or None when coqc failed."""
+    import re
     hdr = vlib.COQ_PRINT_HDR + "From Coq Require Import String List NArith.\nImport ListNotations.\nFrom S4.Corr Require Import C05c.\nOpen Scope string_scope.\n"
-    order = sorted(range(len(texts)), key=lambda i: -len(texts[i]))
-    shards = [order[j::vlib.NCPU] for j in range(vlib.NCPU) if order[j::vlib.NCPU]]
-    srcs = [hdr + "Definition cases : list %s := [\n%s\n].\nEval vm_compute in (run_cases %s cases).\n" % (typ, ";\n".join(texts[i] for i in sh), fn) for sh in shards]
-    res = vlib.coq_eval_shards(os.path.join(CACHE, "cases", "C05", "glue_" + name), srcs)
-    bad = {}
-    for sh, (rc, out) in zip(shards, res):
-        pairs = vlib.parse_eval_pairs(out) if rc == 0 else None
-        if pairs is None:
-            ctx.obligation_broken("correspondence", "coqc on C05 container cases (%s)" % name, out[-3000:])
+    items = [(gi, i, len(t)) for gi, g in enumerate(groups) for i, t in enumerate(g[3])]
+    items.sort(key=lambda x: -x[2])
+    nsh = max(1, min(vlib.NCPU, len(items)))
+    loads, shards = [0] * nsh, [[] for _ in range(nsh)]
+    for it in items:                                     # longest first onto the lightest shard
+        k = loads.index(min(loads))
+        shards[k].append(it)
+        loads[k] += it[2] + 20000
+    srcs, layout = [], []
+    for sh in shards:
+        src, lay = hdr, []
+        for gi, g in enumerate(groups):
+            mine = [i for (g2, i, _) in sh if g2 == gi]
+            lay.append(mine)
+            src += "Definition cases_%d : list %s := [\n%s\n].\nEval vm_compute in (run_cases %s cases_%d).\n" % (gi, g[2], ";\n".join(g[3][i] for i in mine), g[1], gi)
+        srcs.append(src)
+        layout.append(lay)
+    res = vlib.coq_eval_shards(os.path.join(CACHE, "cases", "C05", "glue"), srcs)
+    bad = {g[0]: {} for g in groups}
+    for lay, (rc, out) in zip(layout, res):
+        parts = re.findall(r"=\s*(\[.*?\])\s*:\s*list", out, flags=re.S) if rc == 0 else []
+        if len(parts) != len(groups):
+            ctx.obligation_broken("correspondence", "coqc on C05 container cases", out[-3000:])
             return None
-        for i, code in pairs:
-            bad.setdefault(sh[i], []).append(code)
+        for gi, body in enumerate(parts):
+            for t in re.findall(r"\(([^()]*)\)", body):
+                i, code = [int(x) for x in re.findall(r"\d+", t)]
+                bad[groups[gi][0]].setdefault(lay[gi][i], []).append(code)
     return bad
 
 
@@ -515,12 +515,6 @@ def run(ctx, scratch, quick):
         texts[fam].append({"gz": gz_coq, "pre": pre_coq, "xz": xz_coq}[fam](c, o))
         owners[fam].append(c)
     det = lambda c: dict(family=c["family"], path=c["path"], bs=c["bs"], meta=c["meta"], file_hex=small(c["blob"]), plain_hex=small(c["plain"]))
-    b_gz = coq_run(ctx, "gz", "gz_case_bad", "gz_case_t", texts["gz"])
-    report_b(ctx, "BlockReader::new/filesz/blockoffset_last/count_blocks/mtime/read_block on .gz vs Model.Containers.gz_new / gz_read_block", owners["gz"], b_gz, det)
-    b_pre = coq_run(ctx, "pre", "pre_case_bad", "pre_case_t", texts["pre"])
-    report_b(ctx, "BlockReader::new on .bz2 / .lz4 (size pre-pass) vs Model.Containers.bz2_new / lz4_new", owners["pre"], b_pre, det)
-    b_xz = coq_run(ctx, "xz", "xz_case_bad", "xz_case_t", texts["xz"])
-    report_b(ctx, "BlockReader::new on .xz (header bytes, decode loop, pre-slicing) vs Model.Containers.xz_new", owners["xz"], b_xz, det)
     # ---- tar: listing, process_path_tar, then open / ntf per member
     tl = outl[n1:]
     lines2, plan2 = [], []
@@ -573,10 +567,6 @@ def run(ctx, scratch, quick):
             ps = a["path"].encode() + b"|" + sub
             lines2.append("ntf\t%s\t4\tj" % hx(ps))
             plan2.append(("ntf", a, ps, 0, m))
-    b_pp = coq_run(ctx, "pptar", "pp_case_bad", "pp_case_t", pp_texts)
-    report_b(ctx, "process_path_tar vs Model.Containers.process_path_tar_m on the crate's entry list", pp_own, b_pp, lambda a: dict(path=a["path"], meta=a["meta"], file_hex=small(a["blob"])))
-    b_ref = coq_run(ctx, "tarref", "ref_case_bad", "ref_case_t", ref_texts)
-    report_b(ctx, "tar crate entries_with_seek() listing vs Model.Containers.tar_ref_list (reference header parser)", ref_own, b_ref, lambda a: dict(path=a["path"], meta=a["meta"], file_hex=small(a["blob"])))
     # ---- decompress_to_ntf on compressed files (journal type: the bytes are only copied)
     ntf_files = []
     pj = payload(rng, 300)
@@ -587,6 +577,8 @@ def run(ctx, scratch, quick):
     ntf_files.append(("gz", put(os.path.join(scratch, "n3.journal.gz"), bytes(bb)), pj, None, 1))
     ntf_files.append(("xz", put(os.path.join(scratch, "n4.journal.xz"), lzma.compress(pj)), pj, dict(mtime=0), 2))
     ntf_files.append(("bz2", put(os.path.join(scratch, "n5.journal.bz2"), bz2.compress(pj)), pj, dict(mtime=0), 2))
+    import c05
+    ntf_files.append(("lz4", put(os.path.join(scratch, "n6.journal.lz4"), c05.lz4_frame(pj, [100, 200], content_checksum=True)), pj, dict(mtime=0), 2))
     for fam, path, plain, e, kind in ntf_files:
         lines2.append("ntf\t%s\t%d\tj" % (hx(path.encode()), FTA[fam]))
         plan2.append(("ntfc", dict(path=path, blob=open(path, "rb").read(), meta=dict(family=fam)), path.encode(), kind, dict(data=plain, expect=e)))
@@ -633,11 +625,22 @@ def run(ctx, scratch, quick):
                 if got != (0, len(data), data, want_mt):
                     ctx.failure(case, "extracted %d bytes = the member's data, mtime %s" % (len(data), want_mt), "status %d, size %d, content equal %s, mtime %s" % (st, sz, content == data, (mc, ms)), classes_of(case))
                     spec_fail += 1
-    b_tar = coq_run(ctx, "tar", "tar_case_bad", "tar_case_t", tar_texts)
+    ares = lambda a: dict(path=a["path"], meta=a["meta"], file_hex=small(a["blob"]))
+    groups = [("gz", "gz_case_bad", "gz_case_t", texts["gz"]), ("pre", "pre_case_bad", "pre_case_t", texts["pre"]), ("xz", "xz_case_bad", "xz_case_t", texts["xz"]),
+              ("pptar", "pp_case_bad", "pp_case_t", pp_texts), ("tarref", "ref_case_bad", "ref_case_t", ref_texts),
+              ("tar", "tar_case_bad", "tar_case_t", tar_texts), ("ntf", "ntf_case_bad", "ntf_case_t", ntf_texts)]
+    bad = coq_batch(ctx, groups)
+    if bad is None:
+        return cov
+    b_gz, b_pre, b_xz, b_pp, b_ref, b_tar, b_ntf = [bad[g[0]] for g in groups]
+    report_b(ctx, "BlockReader::new/filesz/blockoffset_last/count_blocks/mtime/read_block on .gz vs Model.Containers.gz_new / gz_read_block", owners["gz"], b_gz, det)
+    report_b(ctx, "BlockReader::new on .bz2 / .lz4 (size pre-pass) vs Model.Containers.bz2_new / lz4_new", owners["pre"], b_pre, det)
+    report_b(ctx, "BlockReader::new on .xz (header bytes, decode loop, pre-slicing) vs Model.Containers.xz_new", owners["xz"], b_xz, det)
+    report_b(ctx, "process_path_tar vs Model.Containers.process_path_tar_m on the crate's entry list", pp_own, b_pp, ares)
+    report_b(ctx, "tar crate entries_with_seek() listing vs Model.Containers.tar_ref_list (reference header parser)", ref_own, b_ref, ares)
     report_b(ctx, "BlockReader::new/filesz/mtime/read_block on archive|member vs Model.Containers.tar_new / tar_read_block on the crate's entry list", tar_own, b_tar,
              lambda c: dict(path=c["path"], bs=c["bs"], meta=c["meta"], file_hex=small(c["blob"])))
-    b_ntf = coq_run(ctx, "ntf", "ntf_case_bad", "ntf_case_t", ntf_texts)
-    report_b(ctx, "decompress_to_ntf vs Model.Containers.ntf_gz / ntf_plain / ntf_tar", ntf_own, b_ntf, lambda c: dict(path=c["path"], meta=c["meta"], file_hex=small(c["blob"])))
+    report_b(ctx, "decompress_to_ntf vs Model.Containers.ntf_gz / ntf_plain / ntf_tar", ntf_own, b_ntf, ares)
     fam_hist = {}
     for c in gzc + prc + xzc:
         fam_hist[c["family"]] = fam_hist.get(c["family"], 0) + 1
@@ -672,20 +675,12 @@ def e2e(ctx, scratch, quick):
     runs = []      # (label, class case, [plain paths], [stored path])
     a, b = log("first", 30), log("second", 12, t0=1709640000)
     pa, pb = put(os.path.join(d, "a.log"), a), put(os.path.join(d, "b.log"), b)
-    pab = put(os.path.join(d, "ab.log"), a + b)
     # gzip: every optional field at once, MTIME variants
     for j, mt in enumerate([0, 1, 2 ** 31, 2 ** 32 - 1]):
         os.makedirs(os.path.join(d, "allf%d" % j), exist_ok=True)
         q = put(os.path.join(d, "allf%d" % j, "a.log.gz"),
                 gz_build(a, text=True, hcrc=True, extra=rnd_bytes(rng, 40), name=b"a\xff.log", comment=b"c\xfe" * 40, mtime=mt, xfl=2, osb=255))
         runs.append(("gz_all_fields", dict(family="gz", members=1), [pa], [q]))
-    os.makedirs(os.path.join(d, "mm"), exist_ok=True)
-    runs.append(("gz_multi_member", dict(family="gz", members=2), [pab], [put(os.path.join(d, "mm", "ab.log.gz"), gz_build(a, mtime=1) + gz_build(b, mtime=2))]))
-    os.makedirs(os.path.join(d, "mm2"), exist_ok=True)
-    runs.append(("gz_multi_member", dict(family="gz", members=2), [pab], [put(os.path.join(d, "mm2", "ab.log.gz"), gz_build(a[:100], mtime=1) + gz_build(a[100:] + b, mtime=2))]))
-    os.makedirs(os.path.join(d, "ms"), exist_ok=True)
-    runs.append(("xz_multi_stream", dict(family="xz", streams=2), [pab], [put(os.path.join(d, "ms", "ab.log.xz"), lzma.compress(a) + lzma.compress(b))]))
-    # tar: every entry kind around the members; duplicate path; mtime beyond i64
     def text_tar(name, spec):
         ents, plains = [], []
         for kind, nm, data, mt, mtf in spec:
@@ -703,8 +698,21 @@ def e2e(ctx, scratch, quick):
     runs.append(("tar_duplicate_path", dict(family="tar", duplicate_path=True), [pa, pb], [tp]))
     tp, _ = text_tar("bigmt", [("F", b"a.log", a, 0, base256(2 ** 63))])
     runs.append(("tar_mtime_2^63", dict(family="tar", mtime=2 ** 63), [pa], [tp]))
-    tp, _ = text_tar("maxmt", [("F", b"a.log", a, 0, base256(2 ** 63 - 1))])
-    runs.append(("tar_mtime_2^63-1", dict(family="tar", mtime=2 ** 63 - 1), [pa], [tp]))
+    tp, _ = text_tar("chronomax1", [("F", b"a.log", a, 0, base256(CHRONO_MAX_SECS + 1))])
+    runs.append(("tar_mtime_chrono_max+1", dict(family="tar", mtime=CHRONO_MAX_SECS + 1), [pa], [tp]))
+    tp, _ = text_tar("chronomax", [("F", b"a.log", a, 0, base256(CHRONO_MAX_SECS))])
+    runs.append(("tar_mtime_chrono_max", dict(family="tar", mtime=CHRONO_MAX_SECS), [pa], [tp]))
+    # year-less syslog lines: the year comes from mtime() — header MTIME of the .gz / mtime of the tar member
+    # must act exactly like the plain file's own modification time (C11 builds on this)
+    T = 1700000000                       # 2023-11-14
+    yl = b"".join(b"Nov %2d 00:00:%02d host prog[7]: yearless line %d\n" % (3 + i, i, i) for i in range(9))
+    os.makedirs(os.path.join(d, "yl"), exist_ok=True)
+    py = put(os.path.join(d, "yl", "messages"), yl)
+    os.utime(py, (T, T))
+    os.makedirs(os.path.join(d, "ylgz"), exist_ok=True)
+    runs.append(("gz_mtime_yearless", dict(family="gz", members=1), [py], [put(os.path.join(d, "ylgz", "messages.gz"), gz_build(yl, name=b"messages", mtime=T))]))
+    os.makedirs(os.path.join(d, "yltar"), exist_ok=True)
+    runs.append(("tar_mtime_yearless", dict(family="tar"), [py], [put(os.path.join(d, "yltar", "m.tar"), tar_raw([(tar_header(b"messages", len(yl), mtime=T), yl)]))]))
     jobs = []
     for lab, cc, plains, stored in runs:
         for bs in ([64, 65536] if quick else [64, 100, 4096, 65536]):
@@ -722,7 +730,31 @@ def e2e(ctx, scratch, quick):
             agree += 1
             continue
         fails += 1
-        case = dict(cc, level="glue-stdout", form=lab, args=["--blocksz", str(bs)], path=stored, plain_path=plains,
+        case = dict(cc, level="stdout", payload="glue", kind="text", form=lab, args=["--blocksz", str(bs)], path=stored, plain_path=plains,
                     files_hex={os.path.basename(q): hx(open(q, "rb").read()) for q in plains + stored})
         ctx.failure(case, "stdout of the plain file(s) (%d bytes), normal exit" % len(p[1]), "stdout %d bytes, rc %d, stderr %s" % (len(s[1]), s[0], s[2][-160:].decode("utf-8", "replace")), classes_of(case))
     return dict(glue_stdout_runs=len(jobs), glue_stdout_agree=agree, glue_stdout_failures=fails)
+
+
+def replay_case(c):
+    """re-run one recorded glue-level failing input; returns True when it still fails"""
+    fpath = c["path"].split("|")[0]
+    if not os.path.exists(fpath) and c.get("file_hex"):
+        os.makedirs(os.path.dirname(fpath), exist_ok=True)
+        put(fpath, bytes.fromhex(c["file_hex"]))
+    if not os.path.exists(fpath) or c.get("plain_hex") is None:
+        print("replay glue case %s: file gone; re-run ./check C05 with the recorded seed" % c["path"])
+        return True
+    plain, bs = bytes.fromhex(c["plain_hex"]), c["bs"]
+    nb = (len(plain) + bs - 1) // bs
+    fam = {"gz": "gz", "bz2": "bz2", "lz4": "lz4", "xz": "xz", "tar": "tar"}[c["family"]]
+    if c.get("what") == "process_path_tar" or c.get("what") == "decompress_to_ntf":
+        outl, err = vlib.harness("c05", ["pptar\t%s" % hx(fpath.encode())] if c["what"] == "process_path_tar" else ["ntf\t%s\t%d\tj" % (hx(c["path"].encode()), FTA[fam])])
+        print("replay %s %s: %s" % (c["what"], c["path"], (outl or [err])[0][:300]))
+        return True
+    outl, err = vlib.harness("c05", ["open\t%s\t%d\t%d\t%s" % (hx(c["path"].encode()), FTA[fam], bs, ",".join(map(str, range(min(nb, 40) + 1))))])
+    o = parse_open(outl[0]) if outl else None
+    ok = (o is not None and not o["err"] and o["filesz"] == len(plain) and o["mt"] == ((1, c["mtime"]) if c.get("mtime") else (0, 0))
+          and all(((k == 0 and bytes.fromhex(h) == plain[i * bs:(i + 1) * bs]) if i < nb else k == 1) for i, k, h in o["results"]))
+    print("replay glue case family=%s path=%s bs=%d n=%d: new/filesz/mtime/blocks as the format says = %s" % (c["family"], c["path"], bs, len(plain), ok))
+    return not ok
